@@ -35,9 +35,9 @@ def pla(name, k, epsfix=None, epsmax=2, ymax=12, xmax=255, maximality=True, tier
                           'fit of every accepted point + maximality (exact feasibility oracle)' if maximality else 'fit of every accepted point (no maximality oracle)'))
 
 
-def mkseg(name, nk, eps, chunks=1, xmax=254, tiers=Q, timeout=900):
+def mkseg(name, nk, eps, chunks=1, xmax=254, tiers=Q, timeout=900, mem_gb=14):
     d = dict(KT['uint8_t']); d.update(NK=nk, EPSFIX=eps, CHUNKS=chunks, XMAX=xmax, YMAXCHK=nk, MAXSEG=nk + 2, VERIF_VEC_CAP=nk + 4, VERIF_VECVEC_CAP=max(chunks, 2))
-    return dict(name=name, unit='pla.cpp', harness='h_mkseg.c', defs=d, narrow=16, timeout=timeout, tiers=tiers,
+    return dict(name=name, unit='pla.cpp', harness='h_mkseg.c', defs=d, narrow=16, timeout=timeout, tiers=tiers, mem_gb=mem_gb,
                 bounds='sorted arrays of exactly %d uint8_t keys in 0..%d (duplicates allowed), epsilon=%d, %s'
                        % (nk, xmax, eps, 'sequential driver' if chunks <= 1 else 'chunked driver with %d chunks (hook H1: real chunk loop run sequentially)' % chunks))
 
@@ -124,13 +124,14 @@ JOBS['C01'] = [
     e2e('e2e_u8_n4_e1_r0_k15', 'uint8_t', 4, 1, 0, tiers=T, timeout=3000, extra=dict(ORD_HI=15), narrow=8),
     e2e('e2e_u8_n4_e1_r0_pAAAB', 'uint8_t', 4, 1, 0, timeout=1800, extra=dict(PATTERN=3)),
     e2e('e2e_u8_n4_e1_r0_pAABB', 'uint8_t', 4, 1, 0, timeout=1800, extra=dict(PATTERN=5)),
+    e2e('e2e_i8_n4_e1_r0', 'int8_t', 4, 1, 0, tiers=T, timeout=4000, mem_gb=30),
     e2e('e2e_u8_n5_e1_r0_k31', 'uint8_t', 5, 1, 0, tiers=T, timeout=5000, extra=dict(ORD_HI=31), narrow=8, mem_gb=40),
 ]
 JOBS['C03'] = [pla('pla_fit_k3_e0', 3, epsfix=0, maximality=False),
                pla('pla_fit_k3_e1_x63', 3, epsfix=1, xmax=63, ymax=6, maximality=False), pla('pla_fit_k3_e2_x31', 3, epsfix=2, xmax=31, ymax=6, maximality=False),
                pla('pla_fit_k3_e1', 3, epsfix=1, maximality=False, tiers=T, timeout=3000), pla('pla_fit_k3_e2', 3, epsfix=2, maximality=False, tiers=T, timeout=3000),
                pla('pla_fit_k4_e1_x31', 4, epsfix=1, xmax=31, ymax=6, maximality=False, tiers=T, timeout=3000)]
-JOBS['C03'] += [mkseg('mkseg_n2_e0', 2, 0), mkseg('mkseg_n2_e1', 2, 1), mkseg('mkseg_n3_e1_c2', 3, 1, chunks=2, timeout=1800), mkseg('mkseg_n3_e1', 3, 1, tiers=T, timeout=3000), mkseg('mkseg_n4_e1_c2', 4, 1, chunks=2, tiers=T, timeout=3000, ), mkseg('mkseg_n4_e0_c3', 4, 0, chunks=3, tiers=T, timeout=3000)]
+JOBS['C03'] += [mkseg('mkseg_n2_e0', 2, 0), mkseg('mkseg_n2_e1', 2, 1), mkseg('mkseg_n3_e1_c2', 3, 1, chunks=2, timeout=1800), mkseg('mkseg_n3_e1', 3, 1, tiers=T, timeout=3000), mkseg('mkseg_n4_e1_c2', 4, 1, chunks=2, tiers=T, timeout=3000, mem_gb=40), mkseg('mkseg_n4_e0_c3', 4, 0, chunks=3, tiers=T, timeout=3000)]
 JOBS['C04'] = [pla('pla_max_k3_e%d_x15' % e, 3, epsfix=e, xmax=15, ymax=6) for e in (0, 1)] + [pla('pla_max_k3_e2_x7', 3, epsfix=2, xmax=7, ymax=12)] + \
               [pla('pla_max_k3_e1_x63', 3, epsfix=1, xmax=63, ymax=6, tiers=T, timeout=3000)]
 JOBS['C14'] = [md('md_contains_n1', 0, 1, 3), md('md_contains_n2', 0, 2, 3)]
@@ -138,13 +139,13 @@ JOBS['C13'] = [md('md_range_n1', 1, 1, 3), md('md_range_n2', 1, 2, 3), md('md_ra
 JOBS['C05'] = [dyn('dyn_q_noidx_b0_o2', 0, 0, 2, idxl=10), dyn('dyn_q_noidx_b0_o3', 0, 0, 3, idxl=10), dyn('dyn_q_noidx_b0_o4', 0, 0, 4, idxl=10, tiers=T, timeout=3000, mem_gb=40)]
 JOBS['C06'] = [dyn('dyn_it_noidx_b0_o2', 1, 0, 2, idxl=10), dyn('dyn_rng_noidx_b0_o2', 3, 0, 2, idxl=10), dyn('dyn_lbit_noidx_b0_o2', 4, 0, 2, idxl=10), dyn('dyn_it_noidx_b0_o4', 1, 0, 4, idxl=10, tiers=T, timeout=3000)]
 JOBS['C15'] = [dyn('dyn_inv_noidx_b0_o2', 2, 0, 2, idxl=10), dyn('dyn_inv_noidx_b0_o3', 2, 0, 3, idxl=10), dyn('dyn_inv_noidx_b0_o4', 2, 0, 4, idxl=10, tiers=T, timeout=3000, mem_gb=40)]
-JOBS['C05'] += [dynstep('dynstep_q_322', 0, 3, 2, 1)]
-JOBS['C06'] += [dynstep('dynstep_it_321', 1, 3, 2, 1), dynstep('dynstep_rng_321', 3, 3, 2, 1)]
+JOBS['C05'] += [dynstep('dynstep_q_310', 0, 3, 1, 0), dynstep('dynstep_q_321', 0, 3, 2, 1, tiers=T, timeout=3000, mem_gb=40)]
+JOBS['C06'] += [dynstep('dynstep_it_310', 1, 3, 1, 0), dynstep('dynstep_rng_310', 3, 3, 1, 0), dynstep('dynstep_it_321', 1, 3, 2, 1, tiers=T, timeout=3000, mem_gb=40)]
 JOBS['C15'] += [dynstep('dynstep_inv_322', 2, 3, 2, 2)]
 JOBS['C11'] = [mapped('mapped_u8_n2', 'uint8_t', 2), mapped('mapped_i8_n2', 'int8_t', 2), mapped('mapped_u8_n3_dense', 'uint8_t', 3, ord_hi=3), mapped('mapped_i8_n3', 'int8_t', 3, tiers=T, timeout=3000)]
 
 JOBS['C09'] = [bucketing('bucket_n2_t3', 2, 3), bucketing('bucket_n2_t4', 2, 4), bucketing('bucket_n3_t3', 3, 3), bucketing('bucket_n3_t4_dyn', 3, 4, topbits=0, tiers=T, timeout=3000), bucketing('bucket_n4_t6', 4, 6, tiers=T, timeout=4000)]
-JOBS['C10'] = [sdslidx('ef_u16_n1', 'eliasfano.cpp', 'u_eliasfano', 'uint16_t', 1, mem_gb=45, timeout=3600), sdslidx('ef_u16_n2', 'eliasfano.cpp', 'u_eliasfano', 'uint16_t', 2, mem_gb=45, timeout=3600, tiers=T)]
+EF_PROBE = [sdslidx('ef_u16_n1', 'eliasfano.cpp', 'u_eliasfano', 'uint16_t', 1, mem_gb=45, timeout=3600), sdslidx('ef_u16_n2', 'eliasfano.cpp', 'u_eliasfano', 'uint16_t', 2, mem_gb=45, timeout=3600, tiers=T)]
 JOBS['C02'] = JOBS['C01'] + [j_ for j_ in JOBS['C03'] if j_['name'] == 'mkseg_n3_e1_c2']
 JOBS['C07'] = [e2e('e2e_u8_n3_e1_r1', 'uint8_t', 3, 1, 1), e2e('e2e_i8_n2_e1_r1', 'int8_t', 2, 1, 1), e2e('e2e_u8_n4_e1_r1', 'uint8_t', 4, 1, 1, tiers=T, timeout=3000)]
 JOBS['C16'] = [e2e('frame_u8_n2_e1_r1', 'uint8_t', 2, 1, 1, extra=dict(WITH_FRAME=1)), e2e('frame_u8_n3_e1_r0', 'uint8_t', 3, 1, 0, extra=dict(WITH_FRAME=1))]
